@@ -15,7 +15,7 @@
 (***************************************************************************)
 EXTENDS Document, Json, IOUtils
 
-CONSTANTS MaxNodes, MaxDepth
+CONSTANTS MaxNodes, MaxDepth, AllowAlias
 
 VARIABLES docs, refs, l
 
@@ -38,7 +38,7 @@ FeedNext ==
        THEN /\ docs' = [d \in 1..ev.nd |-> [root |-> Null, ovf |-> FALSE]]
             /\ refs' = [r \in 1..ev.nr |-> UnboundRef]
             /\ PrintT(<<"BEHAVIOUR", ToJson(ev)>>)
-       ELSE IF Legal(St, ev.op) /\ WithinBounds(Step(St, ev.op))
+       ELSE IF (IF AllowAlias THEN LegalWithAlias(St, ev.op) ELSE Legal(St, ev.op)) /\ WithinBounds(Step(St, ev.op))
             THEN LET R == Step(St, ev.op) IN
                  /\ docs' = R.docs
                  /\ refs' = R.refs
